@@ -487,7 +487,8 @@ func (sm *shardManagerImpl) retryJoinCluster() {
 func (sm *shardManagerImpl) RegisterShard(clientShardID history.ClusterShardID) time.Time {
 	sm.logger.Info("RegisterShard", tag.NewStringTag("shard", ClusterShardIDtoString(clientShardID)))
 	registeredAt := sm.addLocalShard(clientShardID)
-	sm.broadcastShardChange("register", clientShardID)
+	// Announce the registration instant itself: peers compare it with their own registration instant
+	sm.broadcastShardChange("register", clientShardID, registeredAt)
 
 	// Trigger memberlist metadata update to propagate NodeMeta to other nodes
 	// Run asynchronously to avoid blocking callers
@@ -524,7 +525,7 @@ func (sm *shardManagerImpl) UnregisterShard(clientShardID history.ClusterShardID
 		sm.mutex.Unlock()
 
 		// The entry is already gone; deleting it again after re-locking would wipe a registration made in between.
-		sm.broadcastShardChange("unregister", clientShardID)
+		sm.broadcastShardChange("unregister", clientShardID, time.Now())
 
 		// Trigger memberlist metadata update to propagate NodeMeta to other nodes
 		// Run asynchronously to avoid blocking callers
@@ -880,7 +881,7 @@ func (sm *shardManagerImpl) GetIntraProxyTLSConfig() encryption.TLSConfig {
 	return sm.intraProxyTLSConfig
 }
 
-func (sm *shardManagerImpl) broadcastShardChange(msgType string, shard history.ClusterShardID) {
+func (sm *shardManagerImpl) broadcastShardChange(msgType string, shard history.ClusterShardID, at time.Time) {
 	if !sm.started || sm.ml == nil || sm.memberlistConfig == nil {
 		return
 	}
@@ -889,7 +890,7 @@ func (sm *shardManagerImpl) broadcastShardChange(msgType string, shard history.C
 		Type:        msgType,
 		NodeName:    sm.GetNodeName(),
 		ClientShard: shard,
-		Timestamp:   time.Now(),
+		Timestamp:   at,
 	}
 
 	data, err := json.Marshal(msg)
